@@ -97,7 +97,35 @@ fn run_one(scv: &Value, sh: &Shared) -> Value {
         other => return json!({"invalid": format!("unknown family {other}")}),
     };
     match end {
-        ChildEnd::Report(v) => v,
+        ChildEnd::Report(v) => {
+            // a child whose heap was corrupted by wild execution can hand back a damaged report:
+            // every violation must be a well-formed {tag, props, detail}
+            let well_formed = v.get("skipped").is_some()
+                || (v["violations"].is_array()
+                    && v["digest"].is_string()
+                    && v["violations"].as_array().unwrap().iter().all(|x| x["tag"].is_string() && x["props"].is_array() && x["detail"].is_string()));
+            if well_formed {
+                v
+            } else {
+                let prop = match kind.as_str() {
+                    "async" => "C14",
+                    "count" => "C06",
+                    "crash" => "C05",
+                    "sigs" => "C09",
+                    "cycles" => "C12",
+                    "probe" => {
+                        if scv["profile"] == "C10" {
+                            "C10"
+                        } else {
+                            "C13"
+                        }
+                    }
+                    _ => "C01",
+                };
+                json!({"violations": [{"tag": "child-report-corrupted[memory damaged by wild execution]", "props": [prop], "detail": "the scenario's child process returned a damaged report: its memory was corrupted while the scenario ran (a call went somewhere it must not)"}],
+                       "digest": "00000000000badc0", "died": "corrupted"})
+            }
+        }
         ChildEnd::Signal(s) => {
             let v = match kind.as_str() {
                 "crash" => crash::signal_violation(s, sh),
